@@ -286,7 +286,7 @@ func allPaths(depth int) []string {
 
 var bodies = []string{
 	"a", "*", "a/b", "**", "a/**", "**/b", "?", "a*", "[ab]", "*/b",
-	".git", "a/**/b", "ab", "*b", "a/*",
+	".git", "a/**/b", "ab", "*b", "a/*", "a[!c]b", "a*/**",
 	"??", "b", "*/*", "**/*", "ab/c", "?/b", "[ab]/c", "a*/b", "a/b/c", "**/b/c", "a/**/c", "*/b/*", "**/.git", "[!a]", "[a-c]b", "a/**/**/b", "**/**",
 }
 
@@ -316,7 +316,7 @@ func corePatterns(thorough bool) []string {
 		}
 		return out
 	}
-	for _, b := range bodies[:15] {
+	for _, b := range bodies[:17] {
 		out = append(out, variant(b, 0), variant(b, 1))
 	}
 	for _, b := range bodies[:10] {
@@ -491,6 +491,17 @@ func genPattern(rt *rapid.T, hint string) string {
 		if rapid.IntRange(0, 5).Draw(rt, "lead**") == 0 {
 			comps = append([]string{"**"}, comps...)
 		}
+		// Occasionally replace a separator by something that must not match
+		// it: wildcards and classes never cross a '/'.
+		if len(comps) > 1 && rapid.IntRange(0, 7).Draw(rt, "fuse") == 0 {
+			at := rapid.IntRange(0, len(comps)-2).Draw(rt, "fuse.at")
+			glue := rapid.SampledFrom([]string{"?", "*", "[!x]", "[^x]", "[.-a]"}).Draw(rt, "fuse.with")
+			// (Runs of three or more stars have no documented meaning.)
+			if !strings.HasSuffix(comps[at], "*") && !strings.HasPrefix(comps[at+1], "*") {
+				fused := comps[at] + glue + comps[at+1]
+				comps = append(append(append([]string{}, comps[:at]...), fused), comps[at+2:]...)
+			}
+		}
 	} else {
 		n := rapid.IntRange(1, 3).Draw(rt, "ncomp")
 		for i := 0; i < n; i++ {
@@ -597,7 +608,7 @@ func TestRandomScan(t *testing.T) {
 	rec := ev.New(t, prop, "random-scans",
 		"rapid: trees of depth <=4, fan-out <=4 over {a,b,c,ab,.git,.hg,a.b} with directories, files, portable and absolute links, put on disk and scanned by core.Scan with a list of 0..5 patterns (mostly derived from paths of the tree) and the VCS option; snapshot shape, digest cache and ignore cache compared with the reference; "+ruleScan)
 	known := knownClasses(rec)
-	ev.Check(t, rec, 2500, 25000, func(rt *rapid.T) {
+	ev.Check(t, rec, 1500, 20000, func(rt *rapid.T) {
 		c := &Case{Tree: &Node{Kind: "dir"}}
 		var paths []string
 		c.Tree.Children = genTree(rt, 0, "", &paths)
